@@ -171,7 +171,10 @@ var hostileKeys = []string{
 func hasESC(s string) bool { return strings.IndexByte(s, 0x1b) >= 0 }
 
 func genKeySet(t *rapid.T, label string, max int) []string {
-	n := rapid.IntRange(1, max).Draw(t, label+"N")
+	n := rapid.SampledFrom([]int{1, 2, 3, 3, 4, 5, 6, 8, 12, max/2 + 1, max}).Draw(t, label+"N")
+	if n > max {
+		n = max
+	}
 	seen := map[string]bool{}
 	var out []string
 	hostilePct := rapid.SampledFrom([]int{0, 10, 25, 60}).Draw(t, label+"Hostile")
@@ -215,6 +218,9 @@ func genHistory(t *rapid.T, twoD bool, maxA, maxB, maxLen int) (samples []Sample
 	profile = rapid.SampledFrom(profileNames).Draw(t, "profile")
 	pool := incProfiles[profile]
 	n := rapid.IntRange(0, maxLen).Draw(t, "nsamples")
+	if rapid.Bool().Draw(t, "long") {
+		n = rapid.SampledFrom([]int{maxLen / 3, maxLen / 2, maxLen * 3 / 4, maxLen}).Draw(t, "nsamplesLong")
+	}
 	if profile == "equal" {
 		// every cell exactly once with the same increment: all values equal
 		for _, a := range as {
